@@ -161,46 +161,46 @@ macro_rules! raw_all {
     };
 }
 
-//@ props=C05,C06,C04 tier=quick bounds=every-byte-string<=N,length-symbolic
+//@ props=C05,C06,C04:t tier=quick bounds=every-byte-string<=N,length-symbolic
 // (the line above documents the group; each harness carries its own tag below)
 
-//@ props=C05,C06,C04 tier=quick bounds=u8:all-byte-strings<=2
+//@ props=C05,C06,C04:t tier=quick bounds=u8:all-byte-strings<=2
 raw_all!(c05_raw_u8, u8, 2, 4, quick);
-//@ props=C05,C06,C04 tier=quick bounds=u16:all-byte-strings<=3
+//@ props=C05,C06,C04:t tier=quick bounds=u16:all-byte-strings<=3
 raw_all!(c05_raw_u16, u16, 3, 4, quick);
-//@ props=C05,C06,C04 tier=thorough bounds=i32:all-byte-strings<=5
+//@ props=C05,C06,C04:t tier=thorough bounds=i32:all-byte-strings<=5
 raw_all!(c05_raw_i32, i32, 5, 4, thorough);
-//@ props=C05,C06,C04 tier=quick bounds=u64:all-byte-strings<=9
+//@ props=C05,C06,C04:t tier=quick bounds=u64:all-byte-strings<=9
 raw_all!(c05_raw_u64, u64, 9, 4, quick);
-//@ props=C05,C06,C04 tier=thorough bounds=i128:all-byte-strings<=17
+//@ props=C05,C06,C04:t tier=thorough bounds=i128:all-byte-strings<=17
 raw_all!(c05_raw_i128, i128, 17, 4, thorough);
-//@ props=C05,C06,C04 tier=thorough bounds=f64:all-byte-strings<=9
+//@ props=C05,C06,C04:t tier=thorough bounds=f64:all-byte-strings<=9
 raw_all!(c05_raw_f64, f64, 9, 4, thorough);
-//@ props=C05,C06,C04 tier=quick bounds=bool:all-byte-strings<=2
+//@ props=C05,C06,C04:t tier=quick bounds=bool:all-byte-strings<=2
 raw_all!(c05_raw_bool, bool, 2, 4, quick);
-//@ props=C05,C06,C04 tier=quick bounds=char:all-byte-strings<=3
+//@ props=C05,C06,C04:t tier=quick bounds=char:all-byte-strings<=3
 raw_all!(c05_raw_char, char, 3, 4, quick);
-//@ props=C05,C06,C04 tier=quick bounds=Option<u16>:all-byte-strings<=4
+//@ props=C05,C06,C04:t tier=quick bounds=Option<u16>:all-byte-strings<=4
 raw_all!(c05_raw_opt_u16, Option<u16>, 4, 4, quick);
-//@ props=C05,C06,C04 tier=quick bounds=Result<u8,u16>:all-byte-strings<=4
+//@ props=C05,C06,C04:t tier=quick bounds=Result<u8,u16>:all-byte-strings<=4
 raw_all!(c05_raw_res, Result<u8, u16>, 4, 4, quick);
-//@ props=C05,C06,C04 tier=quick bounds=Option<Option<bool>>:all-byte-strings<=4
+//@ props=C05,C06,C04:t tier=quick bounds=Option<Option<bool>>:all-byte-strings<=4
 raw_all!(c05_raw_opt_opt, Option<Option<bool>>, 4, 4, quick);
-//@ props=C05,C06,C04 tier=quick bounds=Duration:all-byte-strings<=12
+//@ props=C05,C06,C04:t tier=quick bounds=Duration:all-byte-strings<=12
 raw_all!(c05_raw_duration, std::time::Duration, 12, 4, quick);
-//@ props=C05,C06,C04 tier=quick bounds=Weekday:all-byte-strings<=2
+//@ props=C05,C06,C04:t tier=quick bounds=Weekday:all-byte-strings<=2
 raw_all!(c05_raw_weekday, chrono::Weekday, 2, 4, quick);
-//@ props=C05,C06,C04 tier=quick bounds=Month:all-byte-strings<=2
+//@ props=C05,C06,C04:t tier=quick bounds=Month:all-byte-strings<=2
 raw_all!(c05_raw_month, chrono::Month, 2, 4, quick);
-//@ props=C05,C06,C04 tier=quick bounds=FixedOffset:all-byte-strings<=6
+//@ props=C05,C06,C04:t tier=quick bounds=FixedOffset:all-byte-strings<=6
 raw_all!(c05_raw_fixed_offset, chrono::FixedOffset, 6, 8, quick);
-//@ props=C05,C06,C04 tier=quick bounds=DateTime<Utc>:all-byte-strings<=12 cap=900
+//@ props=C05,C06,C04:t tier=quick bounds=DateTime<Utc>:all-byte-strings<=12 cap=900
 raw_all!(c05_raw_datetime_utc, chrono::DateTime<chrono::Utc>, 12, 4, quick);
-//@ props=C05,C06,C04 tier=thorough bounds=NaiveDate:all-byte-strings<=7 cap=1800
+//@ props=C05,C06,C04:t tier=thorough bounds=NaiveDate:all-byte-strings<=7 cap=1800
 raw_all!(c05_raw_naive_date, chrono::NaiveDate, 7, 8, thorough);
-//@ props=C05,C06,C04 tier=thorough bounds=NaiveTime:all-byte-strings<=8 cap=1800
+//@ props=C05,C06,C04:t tier=thorough bounds=NaiveTime:all-byte-strings<=8 cap=1800
 raw_all!(c05_raw_naive_time, chrono::NaiveTime, 8, 8, thorough);
-//@ props=C05,C06,C04 tier=quick bounds=Uuid:all-byte-strings<=16
+//@ props=C05,C06,C04:t tier=quick bounds=Uuid:all-byte-strings<=16
 raw_all!(c05_raw_uuid, uuid::Uuid, 16, 18, quick);
 
 proof! {
@@ -245,27 +245,27 @@ macro_rules! raw_prefixed {
     };
 }
 
-//@ props=C05,C06,C04,C19 tier=quick bounds=String:all-byte-strings<=3 cap=900
+//@ props=C05,C06,C04:t,C19 tier=quick bounds=String:all-byte-strings<=3 cap=900
 raw_prefixed!(c05_hostile_string3, String, 3, 5);
-//@ props=C05,C06,C04,C19 tier=thorough bounds=String:all-byte-strings<=7(full-5-byte-length-varint) cap=2400
+//@ props=C05,C06,C04:t,C19 tier=thorough bounds=String:all-byte-strings<=7(full-5-byte-length-varint) cap=2400
 raw_prefixed!(c05_hostile_string7, String, 7, 9);
-//@ props=C05,C06,C04,C19 tier=quick bounds=Vec<u8>:all-byte-strings<=3 cap=900
+//@ props=C05,C06,C04:t,C19 tier=quick bounds=Vec<u8>:all-byte-strings<=3 cap=900
 raw_prefixed!(c05_hostile_vecu8_3, Vec<u8>, 3, 5);
-//@ props=C05,C06,C04,C19 tier=thorough bounds=Vec<u8>:all-byte-strings<=7 cap=2400
+//@ props=C05,C06,C04:t,C19 tier=thorough bounds=Vec<u8>:all-byte-strings<=7 cap=2400
 raw_prefixed!(c05_hostile_vecu8_7, Vec<u8>, 7, 9);
-//@ props=C05,C06,C04,C19 tier=quick bounds=Bytes:all-byte-strings<=3 cap=900
+//@ props=C05,C06,C04:t,C19 tier=quick bounds=Bytes:all-byte-strings<=3 cap=900
 raw_prefixed!(c05_hostile_bytes3, bytes::Bytes, 3, 5);
-//@ props=C05,C06,C04,C19 tier=quick bounds=[u8;2]:all-byte-strings<=4 cap=900
+//@ props=C05,C06,C04:t,C19 tier=quick bounds=[u8;2]:all-byte-strings<=4 cap=900
 raw_prefixed!(c05_hostile_arru8_2, [u8; 2], 4, 6);
-//@ props=C05,C06,C04,C19 tier=quick bounds=[u16;2]:all-byte-strings<=5 cap=900
+//@ props=C05,C06,C04:t,C19 tier=quick bounds=[u16;2]:all-byte-strings<=5 cap=900
 raw_prefixed!(c05_hostile_arru16_2, [u16; 2], 5, 7);
-//@ props=C05,C06,C04,C19 tier=quick bounds=[u16;0]:all-byte-strings<=2 cap=900
+//@ props=C05,C06,C04:t,C19 tier=quick bounds=[u16;0]:all-byte-strings<=2 cap=900
 raw_prefixed!(c05_hostile_arru16_0, [u16; 0], 2, 4);
-//@ props=C05,C06,C04 tier=quick bounds=Vec<u16>:all-byte-strings<=3 cap=900
+//@ props=C05,C06,C04:t tier=quick bounds=Vec<u16>:all-byte-strings<=3 cap=900
 raw_prefixed!(c05_hostile_vecu16_3, Vec<u16>, 3, 6);
-//@ props=C05,C06,C04 tier=thorough bounds=Vec<u16>:all-byte-strings<=5 cap=2400
+//@ props=C05,C06,C04:t tier=thorough bounds=Vec<u16>:all-byte-strings<=5 cap=2400
 raw_prefixed!(c05_hostile_vecu16_5, Vec<u16>, 5, 8);
-//@ props=C05,C06,C04 tier=quick bounds=LinkedList<u8>:all-byte-strings<=3 cap=900
+//@ props=C05,C06,C04:t tier=quick bounds=LinkedList<u8>:all-byte-strings<=3 cap=900
 raw_prefixed!(c05_hostile_listu8_3, std::collections::LinkedList<u8>, 3, 6);
 
 proof! {
